@@ -91,6 +91,10 @@ class NestedParent(WrappingQuery):
         self.per_parent_limit = per_parent_limit
         self.score_fn = score_fn
 
+    def _rewrap(self, child):
+        return self.__class__(self.parents, child, self.per_parent_limit,
+                              self.score_fn)
+
     def normalize(self):
         p = self.parents
         if isinstance(p, qcore.Query):
@@ -264,6 +268,9 @@ class NestedChildren(WrappingQuery):
         self.parents = parents
         self.child = subq
         self.boost = boost
+
+    def _rewrap(self, child):
+        return self.__class__(self.parents, child, self.boost)
 
     def matcher(self, searcher, context=None):
         bits = searcher._filter_to_comb(self.parents)
